@@ -109,6 +109,26 @@ end
     e4eb1d8 `InsertIdenticalTip` hung the new tip on that root, which then stopped being a tip) -/
 def nondegB (t : T) : Bool := !(t.kids.length == 1 && (leavesL t.kids).length == 1)
 
+/- labels of the nodes that are not tips (the root included unless it is a tip) -/
+mutual
+def innerLabels : T → List String
+  | .node d _ k => (if k.isEmpty then [] else [d.name]) ++ innerLabelsL k
+def innerLabelsL : Kids → List String
+  | [] => []
+  | (_, t) :: r => innerLabels t ++ innerLabelsL r
+end
+
+/-- the region of the open finding F79 `InsertIdenticalDuplicateInnerLabels`: two inner nodes of the host
+    carry the same non-empty label, the tips are pairwise different -/
+def dupInnerLabels (t : T) : Bool :=
+  hasDup (((if t.kids.length == 1 then [] else [t.name]) ++ innerLabelsL t.kids).filter (· != "")) && t.uniqueTips
+
+/-- "a group with exactly one existing member on a tree with unique tip names must be accepted": the groups
+    as such are acceptable — the insertion procedure itself (without the node-index precondition of the
+    code) goes through -/
+def groupsAcceptable (t : T) (groups : List (List String)) : Bool :=
+  (insertGroups groups t t.tipNames).2.isNone
+
 /-- hypotheses under which the distance statements are meant: unique tip names -/
 def uniq (t : T) : Bool := t.uniqueTips
 
